@@ -48,6 +48,9 @@
 (*   oracle:RepeatChangedContents   same command again on its own output    *)
 (*                                  (first run exit 0) changed decoded      *)
 (*                                  contents / info files                   *)
+(*   oracle:RefusedCopyChangedDestination  convert-chunks --copy-info exits  *)
+(*                                  non-zero on a destination that already   *)
+(*                                  had an info, but changed its contents   *)
 (*   oracle:ConvertVoxelsDiffer     exit 0 and some scale of the            *)
 (*                                  destination /= Convert(source scale),   *)
 (*                                  for EVERY chunking the info declares    *)
@@ -159,6 +162,7 @@ SuccessClause(c, S1) ==
     [] c.op = "Edit"      -> "ok"
     [] c.op = "Rechunk"   -> "ok"
     [] c.op = "Obstruct"  -> "ok"
+    [] c.op = "Damage"    -> "ok"
     [] c.op = "Stats"     -> "ok"
     [] c.op = "HandInfo"  -> Chk(sd.fullres = "ok", "oracle:SuccessButMissingFile")
     [] c.op \in {"Vol", "Slices"}
@@ -192,6 +196,14 @@ RepeatClause(k) ==
   IF k > 1 /\ Ev[k].cmd.op # "Stats" /\ Ev[k - 1].cmd = Ev[k].cmd
      /\ Ev[k - 1].remote = Ev[k].remote /\ FirstOk(Ev[k - 1].cmd, Ev[k - 1].exit)
   THEN Chk(\A d \in TraceDirs : DirSame(Before(k)[d], Ev[k].snap[d]), "oracle:RepeatChangedContents")
+  ELSE "ok"
+
+\* a --copy-info conversion that is refused because the destination already has an
+\* info (the tools never overwrite one) must leave that destination as it was
+RefusedCopyClause(k) ==
+  LET c == Ev[k].cmd IN
+  IF c.op = "Convert" /\ c.copy = "copy" /\ Ev[k].exit # 0 /\ Before(k)[c.d].info.st = "ok"
+  THEN Chk(DirSame(Before(k)[c.d], Ev[k].snap[c.d]), "oracle:RefusedCopyChangedDestination")
   ELSE "ok"
 
 \* (d) the source of a conversion is left alone
@@ -321,6 +333,7 @@ OracleClause(k, pv) ==
   FirstBad(<< SourceClause(k),
               IF Ev[k].exit = 0 THEN SuccessClause(Ev[k].cmd, Ev[k].snap) ELSE "ok",
               RepeatClause(k),
+              RefusedCopyClause(k),
               ConvertClause(k),
               SpecReaderClause(k),
               AioClause(pv, Ev[k].snap),
